@@ -443,6 +443,14 @@ def s_ri_into_iter(ex, st, fr, text, args):
     return args[0]
 
 
+@summary(r'^<\[.*; \d+\] as IntoIterator>::into_iter$', 'array::into_iter: by-value iterator over the elements in order')
+def s_array_into_iter(ex, st, fr, text, args):
+    v = args[0]
+    if not isinstance(v, A):
+        raise Inconclusive('array into_iter on %r' % (v,))
+    return Native('vecit', (tuple(v.f), 0))
+
+
 @summary(r'^<(std::vec::)?Vec<.*> as IntoIterator>::into_iter$', 'Vec::into_iter: by-value iterator over the elements in order')
 def s_vec_into_iter(ex, st, fr, text, args):
     v = args[0]
@@ -629,6 +637,30 @@ def s_assert_unchecked(ex, st, fr, text, args):
     if ok:
         raise Inconclusive('assert_unchecked may be violated: undefined behaviour')
     return UNIT
+
+
+@summary(r'^(std::result::)?Result::<.*>::(unwrap|expect)$', 'Result::unwrap / expect: the Ok value, panic on Err')
+def s_result_unwrap(ex, st, fr, text, args):
+    v = args[0]
+    if isinstance(v, Ref):
+        v = ex.deref(st, v)
+    if not isinstance(v, E):
+        raise Inconclusive('unwrap on %r' % (v,))
+    if v.v == 'Ok':
+        return v.f[0]
+    return PanicResult('called `Result::unwrap()` on an `Err` value')
+
+
+@summary(r'^(std::option::)?Option::<.*>::(unwrap|expect)$', 'Option::unwrap / expect: the Some value, panic on None')
+def s_option_unwrap(ex, st, fr, text, args):
+    v = args[0]
+    if isinstance(v, Native):
+        raise Inconclusive('unwrap on %r' % (v,))
+    if not isinstance(v, E):
+        raise Inconclusive('unwrap on %r' % (v,))
+    if v.v == 'Some':
+        return v.f[0]
+    return PanicResult('called `Option::unwrap()` on a `None` value')
 
 
 @summary(r'^(std::result::)?Result::<.*>::is_ok$', 'Result::is_ok')
